@@ -178,6 +178,19 @@ Theorem C08_ingest_cleanup_on_error_refuted :
   J i0 /\ ~ J (fst (ingest true 7 true (Some 6%nat) i0)).
 Proof. exact undo_refuted. Qed.
 
+(* an error returned by any call of the manifest part of an ingest (calls 2.. of `prog`: open / write / fdatasync /
+   stat of MANIFEST and every call of the roll-over) poisons the manifest, and a poisoned manifest refuses every
+   later ingest at any fault or none: what a reader of MANIFEST reconstructs never changes again in that process *)
+Theorem C08_ingest_manifest_fault_poisons : forall x roll k s,
+  mem x (i_sst s) = false -> i_poison s = false -> (2 <= k)%nat -> (k < length (prog x roll s))%nat ->
+  i_poison (fst (ingest false x roll (Some k) s)) = true /\ snd (ingest false x roll (Some k) s) = false.
+Proof. exact fault_in_manifest_poisons. Qed.
+
+Theorem C08_ingest_poisoned_manifest_refuses : forall x roll fault s, i_poison s = true ->
+  snd (ingest false x roll fault s) = false /\ i_live (fst (ingest false x roll fault s)) = i_live s /\
+  i_poison (fst (ingest false x roll fault s)) = true.
+Proof. exact poisoned_refuses. Qed.
+
 Example C08_example_ingest_fault_states :
   obs 7 (ingest false 7 true (Some 6%nat) i0) = (true, true, false, [], false, true) /\
   obs 7 (ingest false 7 true (Some 3%nat) i0) = (true, false, false, [], false, true) /\
